@@ -77,7 +77,7 @@ TRUSTED = ['Lean 4.33 kernel', 'harness/props/c08.py + lean/Driver/C08.lean',
 
 NAMES = ['Water', 'Ethanol', 'Methanol', 'Propanol', 'Butanol', 'Octane', 'Hexane', 'Benzene', 'Toluene']
 # chemicals used only by the `psat-range-edge` class (single component at the ends of its vapour-pressure model)
-EXTRA_NAMES = ['Cyclohexane', 'tert-Butanol', 'EthylAcetate', 'Heptane', 'Pentane', 'Butane', 'Propane']
+EXTRA_NAMES = ['Cyclohexane', 'tert-Butanol', 'EthylAcetate', 'Heptane', 'Pentane', 'Butane', 'Propane', 'SO2', 'Ammonia', 'HCN', 'Chlorine']
 ALL_NAMES = NAMES + EXTRA_NAMES
 # one chemical present with the specification beyond its critical point (the `else chemical.Tc` / `else chemical.Pc`
 # branches of the shortcut): (chemical, partner at zero level, which specification can exceed the critical value)
@@ -89,6 +89,10 @@ NEIGHBOURS = [(2, 'Propanol,Methanol,Water', 'dewP', 398.517, [0.3284, 0.2734, 0
               (1, 'Hexane,Water', 'bubT', 7500.0, [0.05, 0.95]),
               (2, 'Butanol,Octane,Propanol', 'dewT', 29460.96, [0.4724, 0.3925, 0.1351]),
               (1, 'Hexane,Propanol', 'dewT', 665828.76, [0.45, 0.55])]
+# volatile chemicals WITHOUT Dortmund-UNIFAC groups (their γ is 1 inside an activity-coefficient package; the group
+# kernel then works on a sub-vector and maps it back through an index) and partners that have groups
+GROUPLESS = ['SO2', 'Ammonia', 'HCN', 'Chlorine']
+GROUPED = ['Ethanol', 'Methanol', 'Propanol', 'Butanol', 'Benzene', 'Toluene', 'Hexane', 'Octane', 'Water']
 VSHARES = 16      # the case space is cut into this many seed-derived shares whatever --jobs is
 # (chemical, miscible partner listed next to it, which end of the Psat model lies inside 5e3–3e6 Pa)
 EDGES = [('Cyclohexane', 'Hexane', 'lower'), ('tert-Butanol', 'Ethanol', 'lower'), ('EthylAcetate', 'Toluene', 'lower'),
@@ -685,6 +689,7 @@ def run_impl(case: Case) -> ImplResult:
         pass
     r = Run(ids, pkg)
     if case.meta.get('edge'): r.tags.add('psat-range-edge:' + case.meta['edge'])
+    if case.meta.get('groupless'): r.tags.add('groupless-chemical:' + case.meta['groupless'])
     if case.meta.get('critical'): r.tags.add('single-critical-guard:' + case.meta['critical'])
     if 'neighbour' in case.meta: r.tags.add('known-witness-neighbourhood')
     for line in case.ops[1:]:
@@ -883,6 +888,36 @@ def p_range(ids):
     lo = max([5e3] + [psat(i, lo_T) for i in ids])
     hi = min([3e6] + [psat(i, 480.) for i in ids])
     return lo * 1.02, hi * 0.98
+
+
+def gen_groupless_case(rng, which, tier):
+    """a chemical without UNIFAC groups listed with 2–3 chemicals that have them, under the activity-coefficient packages:
+    every ordering of the list (n = 3) or a sample (n = 4), T-specified (the mixtures are wide-boiling: a common pressure
+    specification inside every Psat range rarely exists), plus round trip and ordering on one ordering"""
+    g = GROUPLESS[which]
+    while True:
+        n = rng.choice([3, 3, 4])
+        others = rng.sample(GROUPED, n - 1)
+        ids = others[:]
+        ids.insert(rng.randrange(n), g)
+        z = [round(rng.uniform(0.1, 1.0), 3) for _ in ids]
+        if uniq_flag(ids, 1, z): break                  # no liquid–liquid immiscible pair
+    s_ = sum(z); z = [v / s_ for v in z]
+    pkg = rng.choice([1, 1, 2])
+    lo = max([262.] + [CH[i].Psat.Tmin + 2 for i in ids])
+    hi = min([CH[g].Psat.Tmax - 15., 420.])
+    # keep every pure vapour pressure ≤ 3e6 Pa
+    while hi > lo + 5 and psat(g, hi) > 2.5e6: hi -= 5.
+    ops = [f'sys {pkg} {",".join(ids)}']
+    perms = list(itertools.permutations(range(n)))
+    if n == 4 or tier == 'quick': perms = rng.sample(perms, min(len(perms), 6 if n == 3 else 8))
+    for m in ('bubP', 'dewP'):
+        T = round(rng.uniform(lo, hi), 2)
+        for p in perms:
+            if list(p) != list(range(n)): ops.append(f'perm {m} {T!r} {",".join(map(str, p))} {zs(z)}')
+    T = round(rng.uniform(lo, hi), 2)
+    ops += [f'ord P {T!r} {zs(z)}', f'rt bub T {T!r} {zs(z)}', f'scale dewP {T!r} 1000.0 {zs(z)}']
+    return Case(ops, {'groupless': g})
 
 
 def gen_z(rng, n, normalised=None):
@@ -1190,6 +1225,9 @@ def gen_share(rng, tier, v):
     for _ in range(2 if q else 12):
         c = gen_fallback_case(rng)
         if c is not None: yield c
+    # a chemical without UNIFAC groups among chemicals that have them, every listing order
+    for i in range(1 if q else len(GROUPLESS)):
+        yield gen_groupless_case(rng, (v + i) % len(GROUPLESS), tier)
     # totals far outside {1e-3, 1, 1e3}·Σz
     for _ in range(2 if q else 10):
         c = gen_extreme_k_case(rng)
@@ -1240,6 +1278,12 @@ def corpus():
              {'edge': 'lower'}),
         Case(['sys 1 Octane,Toluene', 'rt bub T 568.24 1.0,0.0', 'pt dewT 2466095.8 1.0 1.0,0.0', 'trace bubT 2430000.0 1e-10 1.0,0.0'],
              {'edge': 'upper'}),
+        # a chemical without Dortmund groups (γ = 1) listed first / in the middle / last among chemicals with groups
+        Case(['sys 1 Ethanol,Methanol,SO2', 'perm bubP 300.0 2,0,1 0.35,0.45,0.2', 'perm bubP 300.0 0,2,1 0.35,0.45,0.2',
+              'perm dewP 300.0 2,1,0 0.35,0.45,0.2', 'perm bubP 300.0 1,0,2 0.35,0.45,0.2', 'ord P 300.0 0.35,0.45,0.2',
+              'rt bub T 300.0 0.35,0.45,0.2'], {'groupless': 'SO2'}),
+        Case(['sys 2 Benzene,Ammonia,Toluene,Propanol', 'perm dewP 320.0 1,0,2,3 0.3,0.2,0.3,0.2', 'perm bubP 320.0 3,2,1,0 0.3,0.2,0.3,0.2',
+              'perm bubP 320.0 0,2,3,1 0.3,0.2,0.3,0.2'], {'groupless': 'Ammonia'}),
         # totals far outside the usual scale: Σz = 1e-20 and 1e20 (N ≥ 2)
         Case(['sys 1 Water,Ethanol', 'scale bubT 101325.0 1e-20 0.5,0.5', 'scale dewT 101325.0 1e-20 0.5,0.5',
               'scale dewP 355.0 3e-17 0.2,0.8', 'scale bubP 355.0 1e-25 0.2,0.8', 'scale dewT 101325.0 1e+20 0.3,0.7',
